@@ -379,11 +379,15 @@ fn gen_rule(rng: &mut Rng, idx: usize) -> RuleAst {
             Cond::And(Box::new(leaf(f, Op::Eq, V::Bool(rng.bool()))), Box::new(leaf(d, Op::Ne, V::Bool(true)))),
             vec![set(d, Rhs::Lit(V::Bool(true)))],
         )
-    } else if k < 91 {
+    } else if k < 90 {
         // string state machine
         let from = *rng.pick(&["a", "b", "c"]);
         let to = *rng.pick(&["a", "b", "c", "end"]);
         (leaf("s", Op::Eq, V::Str(from.into())), vec![set("s", Rhs::Lit(V::Str(to.into())))])
+    } else if k < 92 {
+        // true on ABSENT data (a missing field reads as null): bootstraps itself once
+        let d = *rng.pick(&["d0", "d1", "Boot.done"]);
+        (leaf(d, Op::Ne, V::Bool(true)), vec![set(d, Rhs::Lit(V::Bool(true)))])
     } else if k < 93 {
         // writes three segments deep into an object that has no such member (`Cnt` exists, `Cnt.sub`
         // does not): the nested write is refused and the value lands under the flat key; fires once
@@ -432,6 +436,10 @@ fn gen_rule(rng: &mut Rng, idx: usize) -> RuleAst {
 
 fn gen_store(rng: &mut Rng) -> Store {
     let mut s = Store::new();
+    // one store in 16 is completely EMPTY (rules can still hold: a missing field reads as null)
+    if rng.chance(1, 16) {
+        return s;
+    }
     s.0.insert("n".into(), V::Int(rng.range(0, 5)));
     s.0.insert("m".into(), V::Int(rng.range(0, 8)));
     let mut o = std::collections::BTreeMap::new();
@@ -512,7 +520,7 @@ impl Check for C03 {
         "C03"
     }
     fn rule(&self) -> String {
-        "1-5 rules drawn from: counters under a limit above/below the bound, flag flippers (ping-pong), always-true rules, quiescing rules, string state machines, counters chasing each other or a moving limit (arithmetic on the left of the comparison, a fact on the right), rules that raise a limit, rules that write three segments deep into an object lacking the intermediate member; no-loop on 1/3 of the rules, activation groups on 1/4, 1/8 disabled, salience ties and negative / i32::MIN / i32::MAX saliences, rules whose action fails (the call returns Err); 1-3 calls on ONE engine and fact store (execute_with_callback / execute mixed), in half of the multi-call histories with remove_rule / add-the-rule-again edits of the knowledge base between two calls; max_cycles over 0..=64 (a fixed family of programs is run on EVERY max_cycles value: exhaustive over that grid), timeout None. Non-trivial: at least one firing and at least two passes observed; distinct by (rules, disabled, store, max_cycles).".into()
+        "1-5 rules drawn from: counters under a limit above/below the bound, flag flippers (ping-pong), always-true rules, quiescing rules, string state machines, counters chasing each other or a moving limit (arithmetic on the left of the comparison, a fact on the right), rules that raise a limit, rules that are true on absent data (`d != true`), rules that write three segments deep into an object lacking the intermediate member; no-loop on 1/3 of the rules, activation groups on 1/4, 1/8 disabled, salience ties and negative / i32::MIN / i32::MAX saliences, rules whose action fails (the call returns Err); 1-3 calls on ONE engine and fact store (execute_with_callback / execute mixed), in half of the multi-call histories with remove_rule / add-the-rule-again edits of the knowledge base between two calls; one fact store in 16 completely empty; max_cycles over 0..=64 (a fixed family of programs is run on EVERY max_cycles value: exhaustive over that grid), timeout None. Non-trivial: at least one firing and at least two passes observed; distinct by (rules, disabled, store, max_cycles).".into()
     }
     fn assumptions(&self) -> Vec<String> {
         vec![
